@@ -7,7 +7,7 @@ use crate::util::{Arena, Src};
 use pallas_codec::minicbor::{self, bytes::ByteVec, Decode, Encode};
 use pallas_codec::utils::{
     Bytes, CborWrap, EmptyMap, Int, KeepRaw, KeyValuePairs, MaybeIndefArray, NonEmptySet, NonZeroInt, Nullable,
-    PositiveCoin, Set, TagWrap,
+    PositiveCoin, Set, TagWrap, ZeroOrOneArray,
 };
 use pallas_primitives::{
     alonzo, babbage, byron, conway, ExUnitPrices, ExUnits, Hash, Metadata, Metadatum, Nonce, NonceVariant,
@@ -786,6 +786,46 @@ impl<'a, 'c> G<'a, 'c> {
     pub fn alonzo_output(&mut self) -> alonzo::TransactionOutput {
         alonzo::TransactionOutput { address: self.address(), amount: self.alonzo_value(), datum_hash: opt!(self, self.hash32()) }
     }
+    /// `GenPostAlonzoTransactionOutput<Value, ScriptRef>` (map-encoded): every present/absent
+    /// combination of the two optional fields
+    pub fn babbage_post_alonzo_output(&mut self) -> babbage::PostAlonzoTransactionOutput<'a> {
+        let datum_option = if self.s.bool() {
+            let d = self.datum_option();
+            Some(self.keep("DatumOption", d))
+        } else {
+            None
+        };
+        let o = babbage::PostAlonzoTransactionOutput {
+            address: self.address(),
+            value: self.alonzo_value(),
+            datum_option,
+            script_ref: opt!(self, CborWrap(self.babbage_script_ref())),
+        };
+        self.s.class(format!(
+            "value:babbage::GenPostAlonzoTransactionOutput(datum={},script={})",
+            o.datum_option.is_some() as u8, o.script_ref.is_some() as u8
+        ));
+        o
+    }
+    pub fn conway_post_alonzo_output(&mut self) -> conway::PostAlonzoTransactionOutput<'a> {
+        let datum_option = if self.s.bool() {
+            let d = self.datum_option();
+            Some(self.keep("DatumOption", d))
+        } else {
+            None
+        };
+        let o = conway::PostAlonzoTransactionOutput {
+            address: self.address(),
+            value: self.conway_value(),
+            datum_option,
+            script_ref: opt!(self, CborWrap(self.conway_script_ref())),
+        };
+        self.s.class(format!(
+            "value:conway::GenPostAlonzoTransactionOutput(datum={},script={})",
+            o.datum_option.is_some() as u8, o.script_ref.is_some() as u8
+        ));
+        o
+    }
     pub fn babbage_output(&mut self) -> babbage::TransactionOutput<'a> {
         self.s.hand("babbage::TransactionOutput");
         match self.s.variant("babbage::TransactionOutput", 2) {
@@ -794,18 +834,7 @@ impl<'a, 'c> G<'a, 'c> {
                 babbage::TransactionOutput::Legacy(self.keep("alonzo::TransactionOutput", o))
             }
             _ => {
-                let datum_option = if self.s.bool() {
-                    let d = self.datum_option();
-                    Some(self.keep("DatumOption", d))
-                } else {
-                    None
-                };
-                let o = babbage::PostAlonzoTransactionOutput {
-                    address: self.address(),
-                    value: self.alonzo_value(),
-                    datum_option,
-                    script_ref: opt!(self, CborWrap(self.babbage_script_ref())),
-                };
+                let o = self.babbage_post_alonzo_output();
                 babbage::TransactionOutput::PostAlonzo(self.keep("babbage::PostAlonzoTransactionOutput", o))
             }
         }
@@ -818,18 +847,7 @@ impl<'a, 'c> G<'a, 'c> {
                 conway::TransactionOutput::Legacy(self.keep("alonzo::TransactionOutput", o))
             }
             _ => {
-                let datum_option = if self.s.bool() {
-                    let d = self.datum_option();
-                    Some(self.keep("DatumOption", d))
-                } else {
-                    None
-                };
-                let o = conway::PostAlonzoTransactionOutput {
-                    address: self.address(),
-                    value: self.conway_value(),
-                    datum_option,
-                    script_ref: opt!(self, CborWrap(self.conway_script_ref())),
-                };
+                let o = self.conway_post_alonzo_output();
                 conway::TransactionOutput::PostAlonzo(self.keep("conway::PostAlonzoTransactionOutput", o))
             }
         }
@@ -1206,31 +1224,44 @@ impl<'a, 'c> G<'a, 'c> {
     pub fn byron_txin(&mut self) -> byron::TxIn {
         self.s.hand("byron::TxIn");
         match self.s.variant("byron::TxIn", 2) {
-            0 => byron::TxIn::Variant0(CborWrap((self.hash32(), self.s.u32e()))),
-            _ => byron::TxIn::Other(1 + self.s.below(255) as u8, self.bytevec(20)),
+            0 => {
+                self.val("byron::TxIn::Variant0");
+                byron::TxIn::Variant0(CborWrap((self.hash32(), self.s.u32e())))
+            }
+            _ => {
+                self.val("byron::TxIn::Other");
+                byron::TxIn::Other(1 + self.s.below(255) as u8, self.bytevec(20))
+            }
         }
     }
     /// PkWitness / ScriptWitness / RedeemWitness or Other(tag > 2, bytes)
     pub fn byron_twit(&mut self) -> byron::Twit {
         self.s.hand("byron::Twit");
         match self.s.variant("byron::Twit", 4) {
-            0 => byron::Twit::PkWitness(CborWrap((self.bytevec(64), self.bytevec(64)))),
-            1 => byron::Twit::ScriptWitness(CborWrap((
-                (self.s.below(65536) as u16, self.bytevec(20)),
-                (self.s.below(65536) as u16, self.bytevec(20)),
-            ))),
-            2 => byron::Twit::RedeemWitness(CborWrap((self.bytevec(32), self.bytevec(64)))),
-            _ => byron::Twit::Other(3 + self.s.below(253) as u8, self.bytevec(20)),
+            0 => {
+                self.val("byron::Twit::PkWitness");
+                byron::Twit::PkWitness(CborWrap((self.bytevec(64), self.bytevec(64))))
+            }
+            1 => {
+                self.val("byron::Twit::ScriptWitness");
+                byron::Twit::ScriptWitness(CborWrap(((self.u16e(), self.bytevec(20)), (self.u16e(), self.bytevec(20)))))
+            }
+            2 => {
+                self.val("byron::Twit::RedeemWitness");
+                byron::Twit::RedeemWitness(CborWrap((self.bytevec(32), self.bytevec(64))))
+            }
+            _ => {
+                self.val("byron::Twit::Other");
+                byron::Twit::Other(3 + self.s.below(253) as u8, self.bytevec(20))
+            }
         }
     }
     pub fn byron_txout(&mut self) -> byron::TxOut {
-        self.s.hand("TagWrap");
-        byron::TxOut {
-            address: byron::Address { payload: TagWrap::new(self.bytevec(60)), crc: self.s.u32e() },
-            amount: self.s.u64e(),
-        }
+        self.val("byron::TxOut");
+        byron::TxOut { address: self.byron_address(), amount: self.s.u64e() }
     }
     pub fn byron_tx(&mut self) -> byron::Tx {
+        self.val("byron::Tx");
         self.s.hand("MaybeIndefArray");
         let ins = self.vecn(0, 3, |g| g.byron_txin());
         let outs = self.vecn(0, 3, |g| g.byron_txout());
@@ -1238,6 +1269,543 @@ impl<'a, 'c> G<'a, 'c> {
             inputs: if self.s.bool() { MaybeIndefArray::Indef(ins) } else { MaybeIndefArray::Def(ins) },
             outputs: if self.s.bool() { MaybeIndefArray::Indef(outs) } else { MaybeIndefArray::Def(outs) },
             attributes: EmptyMap,
+        }
+    }
+
+    // =========================================================================================
+    // Byron: every remaining model type. Classes `value:<Type>[::<Variant>]` record what was built.
+    // =========================================================================================
+    fn val(&mut self, c: &str) {
+        self.s.class(format!("value:{c}"));
+    }
+    pub fn u16e(&mut self) -> u16 {
+        match self.s.below(5) {
+            0 => 0,
+            1 => self.s.below(24) as u16,
+            2 => [23u16, 24, 255, 256, u16::MAX][self.s.below(5)],
+            _ => self.s.raw() as u16,
+        }
+    }
+    pub fn u8e(&mut self) -> u8 {
+        match self.s.below(4) {
+            0 => 0,
+            1 => [1u8, 23, 24, u8::MAX][self.s.below(4)],
+            _ => self.s.raw() as u8,
+        }
+    }
+    /// byte string of about `typical` bytes, sometimes empty or at a CBOR head-width boundary
+    pub fn bv(&mut self, typical: usize) -> ByteVec {
+        let n = match self.s.below(10) {
+            0 => 0,
+            1 => 23 + self.s.below(2),
+            2 => self.s.below(typical + 1),
+            _ => typical,
+        };
+        ByteVec::from(self.s.bytes(n))
+    }
+    /// definite or indefinite array (both are what the encoder of `MaybeIndefArray` can produce)
+    pub fn mia<T>(&mut self, what: &str, v: Vec<T>) -> MaybeIndefArray<T> {
+        self.s.hand("MaybeIndefArray");
+        let indef = self.s.bool();
+        self.s.class(format!(
+            "value:{what}:{}-{}",
+            if indef { "indef" } else { "def" },
+            if v.is_empty() { "empty" } else { "nonempty" }
+        ));
+        if indef {
+            MaybeIndefArray::Indef(v)
+        } else {
+            MaybeIndefArray::Def(v)
+        }
+    }
+    pub fn kvp<K: Clone, V: Clone>(&mut self, what: &str, v: Vec<(K, V)>) -> KeyValuePairs<K, V> {
+        self.s.hand("KeyValuePairs");
+        let indef = self.s.bool();
+        self.s.class(format!(
+            "value:{what}:{}-{}",
+            if indef { "indef" } else { "def" },
+            if v.is_empty() { "empty" } else { "nonempty" }
+        ));
+        if indef {
+            KeyValuePairs::Indef(v)
+        } else {
+            KeyValuePairs::Def(v)
+        }
+    }
+    /// `ZeroOrOneArray` has a private field and no constructor: the only way to obtain one is to
+    /// decode `[]` / `[x]`; the array head is written here, `x` by its own encoder.
+    pub fn zoo<T>(&mut self, label: &str, v: Option<T>) -> ZeroOrOneArray<T>
+    where
+        T: Encode<()> + for<'x> Decode<'x, ()> + Debug,
+    {
+        self.s.hand("ZeroOrOneArray");
+        let empty = || minicbor::decode::<ZeroOrOneArray<T>>(&[0x80]).expect("ZeroOrOneArray: [] decodes");
+        let Some(x) = v else {
+            return empty();
+        };
+        let mut bytes = vec![0x81];
+        match minicbor::to_vec(&x) {
+            Ok(b) => bytes.extend(b),
+            Err(e) => {
+                self.fail(format!("encode-error:{label}(nested)"), format!("{e}"));
+                return empty();
+            }
+        }
+        match minicbor::decode::<ZeroOrOneArray<T>>(&bytes) {
+            Ok(z) => {
+                let same = match &*z {
+                    Some(y) => format!("{:?}", y) == format!("{:?}", x),
+                    None => false,
+                };
+                if !same {
+                    self.fail(
+                        format!("roundtrip-mismatch:{label}(nested)"),
+                        format!("nested value {:?} encoded as {} decodes to {:?}", x, hex::encode(&bytes), *z),
+                    );
+                }
+                z
+            }
+            Err(e) => {
+                self.fail(
+                    format!("decode-error:{label}(nested)"),
+                    format!("nested value {:?} encoded as {} does not decode: {e}", x, hex::encode(&bytes)),
+                );
+                empty()
+            }
+        }
+    }
+    /// `keep` for types without `PartialEq` (compared through their Debug rendering)
+    pub fn keep_dbg<T>(&mut self, label: &str, v: T) -> KeepRaw<'a, T>
+    where
+        T: Encode<()> + Decode<'a, ()> + Debug,
+    {
+        self.s.hand("KeepRaw");
+        let bytes = match minicbor::to_vec(&v) {
+            Ok(b) => b,
+            Err(e) => {
+                self.fail(format!("encode-error:{label}(nested)"), format!("{e}"));
+                return KeepRaw::from(v);
+            }
+        };
+        let buf: &'a [u8] = self.arena.keep(bytes);
+        match minicbor::decode::<KeepRaw<'a, T>>(buf) {
+            Ok(k) => {
+                if format!("{:?}", *k) != format!("{:?}", v) {
+                    self.fail(
+                        format!("roundtrip-mismatch:{label}(nested)"),
+                        format!("nested value {:?} encoded as {} decodes to {:?}", v, hex::encode(buf), *k),
+                    );
+                }
+                if k.raw_cbor().len() != buf.len() {
+                    self.fail(
+                        format!("not-fully-consumed:{label}(nested)"),
+                        format!("nested value encoded as {} consumed only {} bytes", hex::encode(buf), k.raw_cbor().len()),
+                    );
+                }
+                k
+            }
+            Err(e) => {
+                self.fail(
+                    format!("decode-error:{label}(nested)"),
+                    format!("nested value {:?} encoded as {} does not decode: {e}", v, hex::encode(buf)),
+                );
+                KeepRaw::from(v)
+            }
+        }
+    }
+
+    pub fn byron_slot_id(&mut self) -> byron::SlotId {
+        self.val("byron::SlotId");
+        byron::SlotId { epoch: self.s.u64e(), slot: self.s.u64e() }
+    }
+    /// `[#6.24(bytes), u32]`: the payload is a black box for this crate; built either as arbitrary
+    /// bytes or as the CBOR of `[addressid, addrattr, addrtype]` with its real CRC-32
+    pub fn byron_address(&mut self) -> byron::Address {
+        use pvkit::cborx as cx;
+        self.s.hand("TagWrap");
+        self.val("byron::Address");
+        if self.s.below(3) == 0 {
+            self.val("byron::Address:payload-opaque");
+            return byron::Address { payload: TagWrap::new(self.bytevec(60)), crc: self.s.u32e() };
+        }
+        self.val("byron::Address:payload-structured");
+        let mut attrs = vec![];
+        match self.s.below(3) {
+            0 => {}
+            1 => {
+                self.val("byron::AddrAttr:distr-bootstrap");
+                attrs.push((cx::uint(0), cx::bytes(&cx::write(&cx::array(vec![cx::uint(1)])))));
+            }
+            _ => {
+                self.val("byron::AddrAttr:distr-single-key");
+                let id = self.s.bytes(28);
+                attrs.push((cx::uint(0), cx::bytes(&cx::write(&cx::array(vec![cx::uint(0), cx::bytes(&id)])))));
+            }
+        }
+        if self.s.bool() {
+            self.val("byron::AddrAttr:derivation-path");
+            let n = self.s.len(30);
+            let path = self.s.bytes(n);
+            attrs.push((cx::uint(1), cx::bytes(&cx::write(&cx::bytes(&path)))));
+        }
+        if self.s.bool() {
+            self.val("byron::AddrAttr:network-magic");
+            let magic = self.s.u32e() as u64;
+            attrs.push((cx::uint(2), cx::bytes(&cx::write(&cx::uint(magic)))));
+        }
+        let ty = match self.s.below(4) {
+            3 => 3 + self.s.u64e() % 1000,
+            x => x as u64,
+        };
+        let id = self.s.bytes(28);
+        let payload = cx::write(&cx::array(vec![cx::bytes(&id), cx::map(attrs), cx::uint(ty)]));
+        let crc = if self.s.below(4) == 0 { self.s.u32e() } else { pvkit::crc32::crc32(&payload) };
+        byron::Address { payload: TagWrap::new(ByteVec::from(payload)), crc }
+    }
+    pub fn byron_witnesses(&mut self) -> byron::Witnesses {
+        let v = self.vecn(0, 3, |g| g.byron_twit());
+        self.mia("byron::Witnesses", v)
+    }
+    pub fn byron_tx_payload(&mut self) -> byron::TxPayload<'a> {
+        self.val("byron::TxPayload");
+        let tx = self.byron_tx();
+        let w = self.byron_witnesses();
+        byron::TxPayload { transaction: self.keep("byron::Tx", tx), witness: self.keep_dbg("byron::Witnesses", w) }
+    }
+
+    // ---- shared seed computation ----
+    pub fn byron_ssc_proof(&mut self) -> byron::SscProof {
+        self.s.hand("byron::SscProof");
+        match self.s.variant("byron::SscProof", 4) {
+            0 => {
+                self.val("byron::SscProof::Variant0");
+                byron::SscProof::Variant0(self.hash32(), self.hash32())
+            }
+            1 => {
+                self.val("byron::SscProof::Variant1");
+                byron::SscProof::Variant1(self.hash32(), self.hash32())
+            }
+            2 => {
+                self.val("byron::SscProof::Variant2");
+                byron::SscProof::Variant2(self.hash32(), self.hash32())
+            }
+            _ => {
+                self.val("byron::SscProof::Variant3");
+                byron::SscProof::Variant3(self.hash32())
+            }
+        }
+    }
+    /// on chain: an indefinite array with one item
+    fn byron_vss_enc(&mut self) -> byron::VssEnc {
+        let v = self.vecn(0, 2, |g| g.bv(33));
+        self.mia("byron::VssEnc", v)
+    }
+    fn byron_vss_proof(&mut self) -> byron::VssProof {
+        self.val("byron::VssProof");
+        let (a, b, c) = (self.bv(33), self.bv(64), self.bv(40));
+        let v = self.vecn(0, 3, |g| g.bv(33));
+        (a, b, c, self.mia("byron::VssProof.3", v))
+    }
+    fn byron_ssc_comm(&mut self) -> byron::SscComm {
+        self.val("byron::SscComm");
+        let pk = self.bv(64);
+        let shares = self.vecn(0, 2, |g| (g.bv(35), g.byron_vss_enc()));
+        let shares = self.kvp("byron::SscComm.shares", shares);
+        let proof = self.byron_vss_proof();
+        (pk, (shares, proof), self.bv(64))
+    }
+    fn byron_ssc_comms(&mut self) -> byron::SscComms {
+        self.s.hand("TagWrap");
+        let v = self.vecn(0, 2, |g| g.byron_ssc_comm());
+        TagWrap::new(self.mia("byron::SscComms", v))
+    }
+    /// the order pallas decodes (and the chain carries): vsspubkey, epoch, pubkey, signature
+    fn byron_ssc_cert(&mut self) -> byron::SscCert {
+        self.val("byron::SscCert");
+        (self.bv(35), self.s.u64e(), self.bv(64), self.bv(64))
+    }
+    fn byron_ssc_certs(&mut self) -> byron::SscCerts {
+        self.s.hand("TagWrap");
+        let v = self.vecn(0, 2, |g| g.byron_ssc_cert());
+        TagWrap::new(self.mia("byron::SscCerts", v))
+    }
+    fn byron_ssc_opens(&mut self) -> byron::SscOpens {
+        let v = self.vecn(0, 2, |g| (g.hash28(), g.bv(35)));
+        self.kvp("byron::SscOpens", v)
+    }
+    fn byron_ssc_shares(&mut self) -> byron::SscShares {
+        let v = self.vecn(0, 2, |g| {
+            let k = g.hash28();
+            let inner = g.vecn(0, 2, |g| {
+                let k = g.hash28();
+                let decs = g.vecn(0, 2, |g| g.bv(99));
+                (k, g.mia("byron::VssDec-list", decs))
+            });
+            (k, g.kvp("byron::SscShares.inner", inner))
+        });
+        self.kvp("byron::SscShares", v)
+    }
+    pub fn byron_ssc(&mut self) -> byron::Ssc {
+        self.s.hand("byron::Ssc");
+        match self.s.variant("byron::Ssc", 4) {
+            0 => {
+                self.val("byron::Ssc::Variant0");
+                byron::Ssc::Variant0(self.byron_ssc_comms(), self.byron_ssc_certs())
+            }
+            1 => {
+                self.val("byron::Ssc::Variant1");
+                byron::Ssc::Variant1(self.byron_ssc_opens(), self.byron_ssc_certs())
+            }
+            2 => {
+                self.val("byron::Ssc::Variant2");
+                byron::Ssc::Variant2(self.byron_ssc_shares(), self.byron_ssc_certs())
+            }
+            _ => {
+                self.val("byron::Ssc::Variant3");
+                byron::Ssc::Variant3(self.byron_ssc_certs())
+            }
+        }
+    }
+
+    // ---- delegation ----
+    pub fn byron_dlg(&mut self) -> byron::Dlg {
+        self.val("byron::Dlg");
+        byron::Dlg { epoch: self.s.u64e(), issuer: self.bv(64), delegate: self.bv(64), certificate: self.bv(64) }
+    }
+    pub fn byron_lwdlg(&mut self) -> byron::Lwdlg {
+        self.val("byron::Lwdlg");
+        byron::Lwdlg {
+            epoch_range: (self.s.u64e(), self.s.u64e()),
+            issuer: self.bv(64),
+            delegate: self.bv(64),
+            certificate: self.bv(64),
+        }
+    }
+
+    // ---- updates ----
+    pub fn byron_bver(&mut self) -> byron::BVer {
+        (self.u16e(), self.u16e(), self.u8e())
+    }
+    /// Variant0 or Other(tag != 0, bytes)
+    pub fn byron_tx_fee_pol(&mut self) -> byron::TxFeePol {
+        self.s.hand("byron::TxFeePol");
+        match self.s.variant("byron::TxFeePol", 2) {
+            0 => {
+                self.val("byron::TxFeePol::Variant0");
+                byron::TxFeePol::Variant0(CborWrap((self.s.i64e(), self.s.i64e())))
+            }
+            _ => {
+                self.val("byron::TxFeePol::Other");
+                byron::TxFeePol::Other(1 + self.s.below(255) as u8, self.bytevec(20))
+            }
+        }
+    }
+    pub fn byron_bver_mod(&mut self) -> byron::BVerMod {
+        self.val("byron::BVerMod");
+        macro_rules! z {
+            ($name:expr, $e:expr) => {{
+                let v = opt!(self, $e);
+                self.zoo($name, v)
+            }};
+        }
+        let m = byron::BVerMod {
+            script_version: z!("ZeroOrOneArray<u16>", self.u16e()),
+            slot_duration: z!("ZeroOrOneArray<u64>", self.s.u64e()),
+            max_block_size: z!("ZeroOrOneArray<u64>", self.s.u64e()),
+            max_header_size: z!("ZeroOrOneArray<u64>", self.s.u64e()),
+            max_tx_size: z!("ZeroOrOneArray<u64>", self.s.u64e()),
+            max_proposal_size: z!("ZeroOrOneArray<u64>", self.s.u64e()),
+            mpc_thd: z!("ZeroOrOneArray<u64>", self.s.u64e()),
+            heavy_del_thd: z!("ZeroOrOneArray<u64>", self.s.u64e()),
+            update_vote_thd: z!("ZeroOrOneArray<u64>", self.s.u64e()),
+            update_proposal_thd: z!("ZeroOrOneArray<u64>", self.s.u64e()),
+            update_implicit: z!("ZeroOrOneArray<u64>", self.s.u64e()),
+            soft_fork_rule: z!("ZeroOrOneArray<(u64,u64,u64)>", (self.s.u64e(), self.s.u64e(), self.s.u64e())),
+            tx_fee_policy: z!("ZeroOrOneArray<TxFeePol>", self.byron_tx_fee_pol()),
+            unlock_stake_epoch: z!("ZeroOrOneArray<u64>", self.s.u64e()),
+        };
+        self.s.class(format!("value:byron::BVerMod.soft_fork_rule:{}", m.soft_fork_rule.is_some() as u8));
+        self.s.class(format!("value:byron::BVerMod.tx_fee_policy:{}", m.tx_fee_policy.is_some() as u8));
+        self.s.class(format!("value:byron::BVerMod.script_version:{}", m.script_version.is_some() as u8));
+        m
+    }
+    fn byron_up_data(&mut self) -> byron::UpData {
+        (self.hash32(), self.hash32(), self.hash32(), self.hash32())
+    }
+    /// every field the model declares optional is generated present and absent
+    pub fn byron_up_prop(&mut self) -> byron::UpProp {
+        self.val("byron::UpProp");
+        let data = self.vecn(0, 2, |g| (g.s.text(12), g.byron_up_data()));
+        let p = byron::UpProp {
+            block_version: opt!(self, self.byron_bver()),
+            block_version_mod: opt!(self, self.byron_bver_mod()),
+            software_version: opt!(self, (self.s.text(16), self.s.u32e())),
+            data: self.kvp("byron::UpProp.data", data),
+            attributes: opt!(self, EmptyMap),
+            from: opt!(self, self.bv(64)),
+            signature: opt!(self, self.bv(64)),
+        };
+        for (f, present) in [
+            ("block_version", p.block_version.is_some()),
+            ("block_version_mod", p.block_version_mod.is_some()),
+            ("software_version", p.software_version.is_some()),
+            ("attributes", p.attributes.is_some()),
+            ("from", p.from.is_some()),
+            ("signature", p.signature.is_some()),
+        ] {
+            self.s.class(format!("value:byron::UpProp.{f}:{}", present as u8));
+        }
+        p
+    }
+    pub fn byron_up_vote(&mut self) -> byron::UpVote {
+        self.val("byron::UpVote");
+        let vote = self.s.bool();
+        self.s.class(format!("value:byron::UpVote.vote:{vote}"));
+        byron::UpVote { voter: self.bv(64), proposal_id: self.hash32(), vote, signature: self.bv(64) }
+    }
+    pub fn byron_up(&mut self) -> byron::Up {
+        self.val("byron::Up");
+        let prop = opt!(self, self.byron_up_prop());
+        self.s.class(format!("value:byron::Up.proposal:{}", prop.is_some() as u8));
+        let votes = self.vecn(0, 2, |g| g.byron_up_vote());
+        byron::Up { proposal: self.zoo("ZeroOrOneArray<UpProp>", prop), votes: self.mia("byron::Up.votes", votes) }
+    }
+
+    // ---- headers ----
+    pub fn byron_block_sig(&mut self) -> byron::BlockSig {
+        self.s.hand("byron::BlockSig");
+        match self.s.variant("byron::BlockSig", 3) {
+            0 => {
+                self.val("byron::BlockSig::Signature");
+                byron::BlockSig::Signature(self.bv(64))
+            }
+            1 => {
+                self.val("byron::BlockSig::LwdlgSig");
+                byron::BlockSig::LwdlgSig((self.byron_lwdlg(), self.bv(64)))
+            }
+            _ => {
+                self.val("byron::BlockSig::DlgSig");
+                byron::BlockSig::DlgSig((self.byron_dlg(), self.bv(64)))
+            }
+        }
+    }
+    /// on chain: a definite array with one item
+    fn byron_difficulty(&mut self) -> byron::Difficulty {
+        let v = self.vecn(0, 2, |g| g.s.u64e());
+        self.mia("byron::Difficulty", v)
+    }
+    pub fn byron_block_cons(&mut self) -> byron::BlockCons {
+        self.val("byron::BlockCons");
+        byron::BlockCons(self.byron_slot_id(), self.bv(64), self.byron_difficulty(), self.byron_block_sig())
+    }
+    pub fn byron_block_head_ex(&mut self) -> byron::BlockHeadEx {
+        self.val("byron::BlockHeadEx");
+        let attributes = opt!(self, EmptyMap);
+        self.s.class(format!("value:byron::BlockHeadEx.attributes:{}", attributes.is_some() as u8));
+        byron::BlockHeadEx {
+            block_version: self.byron_bver(),
+            software_version: (self.s.text(16), self.s.u32e()),
+            attributes,
+            extra_proof: self.hash32(),
+        }
+    }
+    pub fn byron_block_proof(&mut self) -> byron::BlockProof {
+        self.val("byron::BlockProof");
+        byron::BlockProof {
+            tx_proof: (self.s.u32e(), self.hash32(), self.hash32()),
+            ssc_proof: self.byron_ssc_proof(),
+            dlg_proof: self.hash32(),
+            upd_proof: self.hash32(),
+        }
+    }
+    pub fn byron_block_head(&mut self) -> byron::BlockHead {
+        self.val("byron::BlockHead");
+        byron::BlockHead {
+            protocol_magic: self.s.u32e(),
+            prev_block: self.hash32(),
+            body_proof: self.byron_block_proof(),
+            consensus_data: self.byron_block_cons(),
+            extra_data: self.byron_block_head_ex(),
+        }
+    }
+    pub fn byron_ebb_cons(&mut self) -> byron::EbbCons {
+        self.val("byron::EbbCons");
+        byron::EbbCons { epoch_id: self.s.u64e(), difficulty: self.byron_difficulty() }
+    }
+    pub fn byron_ebb_head(&mut self) -> byron::EbbHead {
+        self.val("byron::EbbHead");
+        byron::EbbHead {
+            protocol_magic: self.s.u32e(),
+            prev_block: self.hash32(),
+            body_proof: self.hash32(),
+            consensus_data: self.byron_ebb_cons(),
+            extra_data: (EmptyMap,),
+        }
+    }
+
+    // ---- block bodies and blocks ----
+    pub fn byron_block_body(&mut self) -> byron::BlockBody<'a> {
+        self.val("byron::BlockBody");
+        let txs = self.vecn(0, 2, |g| g.byron_tx_payload());
+        let dlg = self.vecn(0, 2, |g| g.byron_dlg());
+        byron::BlockBody {
+            tx_payload: self.mia("byron::BlockBody.tx_payload", txs),
+            ssc_payload: self.byron_ssc(),
+            dlg_payload: self.mia("byron::BlockBody.dlg_payload", dlg),
+            upd_payload: self.byron_up(),
+        }
+    }
+    fn byron_extra(&mut self) -> MaybeIndefArray<EmptyMap> {
+        let v = self.vecn(0, 2, |_| EmptyMap);
+        self.mia("byron::Block.extra", v)
+    }
+    pub fn byron_block(&mut self) -> byron::Block<'a> {
+        self.val("byron::Block");
+        let h = self.byron_block_head();
+        byron::Block { header: self.keep_dbg("byron::BlockHead", h), body: self.byron_block_body(), extra: self.byron_extra() }
+    }
+    pub fn byron_eb_block(&mut self) -> byron::EbBlock<'a> {
+        self.val("byron::EbBlock");
+        let h = self.byron_ebb_head();
+        let body = self.vecn(0, 3, |g| g.hash28());
+        byron::EbBlock {
+            header: self.keep_dbg("byron::EbbHead", h),
+            body: self.mia("byron::EbBlock.body", body),
+            extra: self.byron_extra(),
+        }
+    }
+
+    // ---- small post-Byron types that no other family reaches ----
+    pub fn alonzo_redeemer_pointer(&mut self) -> alonzo::RedeemerPointer {
+        let tag = match self.s.variant("alonzo::RedeemerPointer.tag", 4) {
+            0 => alonzo::RedeemerTag::Spend,
+            1 => alonzo::RedeemerTag::Mint,
+            2 => alonzo::RedeemerTag::Cert,
+            _ => alonzo::RedeemerTag::Reward,
+        };
+        self.val(&format!("alonzo::RedeemerPointer::{:?}", tag));
+        alonzo::RedeemerPointer { tag, index: self.s.u32e() }
+    }
+    pub fn conway_update(&mut self) -> conway::Update {
+        self.val("conway::Update");
+        let mut m = BTreeMap::new();
+        for _ in 0..self.s.len(2) {
+            let k = self.bytes_exact(28);
+            m.insert(k, self.conway_ppu(false));
+        }
+        conway::Update { proposed_protocol_parameter_updates: m, epoch: self.s.u64e() }
+    }
+    pub fn babbage_language(&mut self) -> babbage::Language {
+        match self.s.variant("babbage::Language", 2) {
+            0 => babbage::Language::PlutusV1,
+            _ => babbage::Language::PlutusV2,
+        }
+    }
+    pub fn conway_language(&mut self) -> conway::Language {
+        match self.s.variant("conway::Language", 3) {
+            0 => conway::Language::PlutusV1,
+            1 => conway::Language::PlutusV2,
+            _ => conway::Language::PlutusV3,
         }
     }
 }
